@@ -8,12 +8,12 @@ PrevA == (1 :> {} @@ 2 :> {} @@ 3 :> {1})
 
 \* configuration B: empty / rejected / abandoned
 KindB == (1 :> "rows" @@ 2 :> "empty" @@ 3 :> "bad")
-ChanB == (1 :> "aband" @@ 2 :> "buf" @@ 3 :> "buf")
+ChanB == (1 :> "aband" @@ 2 :> "late" @@ 3 :> "late")
 PrevB == (1 :> {} @@ 2 :> {} @@ 3 :> {})
 
 \* configuration C: three row batches, nil channel in the middle, sequential client
 KindC == (1 :> "rows" @@ 2 :> "rows" @@ 3 :> "rows")
-ChanC == (1 :> "buf" @@ 2 :> "nil" @@ 3 :> "buf")
+ChanC == (1 :> "late" @@ 2 :> "nil" @@ 3 :> "buf")
 PrevC == (1 :> {} @@ 2 :> {1} @@ 3 :> {})
 
 \* configuration D (four calls): rows, rows, Flush, rows
